@@ -947,7 +947,7 @@ class Interp:
         if kind == 'property-native':
             if v.fget is None:
                 self.ctx.raise_py(AttributeError, 'unreadable attribute')
-            c = self.closure_of_real(v.fget)
+            c = self.closure_of_real(v.fget) or self.nested_prop_closure(v.fget)
             if c is not None:
                 return self.call(c, [o], {})
             raise Unreached('native property on interpreted object')
